@@ -11,7 +11,8 @@ specfn("in_chain", ["ref", "ref"], "bool") # in_chain(p, o): o is p or below p i
 specfn("in_box", ["g", "arr:B"], "bool")
 specfn("dur_owner", ["ref"], "ref")        # the StatsGatheringProblem that owns a durations list   # every coordinate of the genome within the box (row view)
 
-ghost_fields(**{"$ncalls": "int", "$refused": "bool", "$kind": "int"})   # $kind of a list: see d10_tree_structure (9 = durations)
+ghost_fields(**{"$ncalls": "int", "$refused": "bool", "$kind": "int", "$clock": "int"})
+macro("clock", [], 'field(None, "$clock", "int")')     # ghost: total number of objective invocations so far   # $kind of a list: see d10_tree_structure (9 = durations)
 
 macro("ncalls", ["p"], 'field(p, "$ncalls", "int")')
 macro("refused", ["w"], 'field(w, "$refused", "bool")')
